@@ -91,8 +91,8 @@ def solve_one(args):
 
 
 FALLBACKS = [
-    ('z3-4.8.12', ['/usr/bin/z3', '-smt2', '-T:15']),
     ('cvc5-1.0.3', ['/usr/bin/cvc5', '--lang', 'smt2', '--strings-exp', '--tlimit=15000']),
+    ('z3-4.8.12', ['/usr/bin/z3', '-smt2', '-T:15']),
 ]
 
 
